@@ -181,6 +181,16 @@ pub fn threshold_family() -> Vec<(String, Graph)> {
 /// The structured family S (without the large funnel): (name, graph), all with n <= 14.
 pub fn family_s() -> Vec<(String, Graph)> {
     let mut out = threshold_family();
+    // two components that BOTH take the auxiliary-variable side of the hybrid switch (the encoder
+    // object is used once per component within one query), and one mixed pair
+    {
+        let shared = |k: usize, d: usize| -> Vec<Vec<usize>> { (0..k).map(|_| (0..d).collect()).collect() };
+        let a = threshold_graph(&shared(5, 2), 2, 0);
+        let b = threshold_graph(&shared(5, 2), 2, 2);
+        let c = threshold_graph(&shared(4, 2), 2, 0);
+        out.push(("prod32+prod32_selfdef".into(), a.union(&b)));
+        out.push(("prod16+prod32".into(), c.union(&a)));
+    }
     for n in 3..=7 {
         out.push((format!("ring{}", n), ring(n)));
     }
